@@ -419,3 +419,25 @@ def _import_target(self, dotted):
 
 
 _symexec.Executor.import_target = _import_target
+
+
+# ---- element of a key list / view: beta-reduce select(lambda j. e(j), i) at once -------------------------------
+# ENGINE  `list(d)[q]`, `keys_of(d)[q]` and views are built as an array lambda applied to the index; the solver
+#         beta-reduces such terms lazily, so E-matching misses the instances (proofs about the q-th key timed out or
+#         depended on the seed).  In C05/C06 scope the application is reduced when it is built: the same value, a plain term.
+import os as _os
+_orig_subscript = lib.subscript
+
+
+def _subscript(ex, st, obj, sl, node):
+    v = _orig_subscript(ex, st, obj, sl, node)
+    if not _os.environ.get("C05C_NOBETA") and _mine(ex) and v.t is not None and z3.is_app(v.t) and v.t.decl().kind() == z3.Z3_OP_SELECT and z3.is_quantifier(v.t.arg(0)) and v.t.arg(0).is_lambda():
+        lam = v.t.arg(0)
+        if lam.num_vars() == 1:
+            red = z3.substitute_vars(lam.body(), v.t.arg(1))
+            v2 = V(red, v.ty)
+            return v2
+    return v
+
+
+lib.subscript = _subscript
